@@ -448,19 +448,17 @@ Definition step_a_next (k : kind) (x : xpc) (s : st) : option (st * list ev) :=
   | XReadyX => let (s1, evs) := ready_xchg WA s in Some (set_ap AIdle s1, evs)
   end.
 
-Definition y_thread (by_src e : bool) (y : ypc) (s : st) : st * list ev * option ypc := y_step by_src e y s.
-
 Definition step_a (t : nat) (s : st) : option (st * list ev) :=
   match ap s with
   | AIdle =>
-      let next k :=
+      let next (k : kind) : option (st * list ev) :=
         if is_out (src_next (g s)) then
           let s1 := Gh (set_src_next LRun) s in
           (* src_next_op do_complete -> receiver_wrapper set_value / set_done / set_error, :113-130 *)
           if cb_reg (m s1) then Some (set_ap (ANext k XDeregAcq) s1, [ESrcNextComplete k])
           else Some (after_dereg k s1 [ESrcNextComplete k])
         else None in
-      let cl e :=
+      let cl (e : bool) : option (st * list ev) :=
         if src_cl_pend (g s) then
           let s1 := Gh (set_src_cl_pend false) s in
           if is_out (src_cl (g s1)) then
